@@ -24,6 +24,7 @@ META = {
 META["explanation"] += ' R06.6 lag => reset: the result of every receive is examined for `Lagged`, and every path from a Lagged edge passes the lag handler before the stream returns or receives again (a swallowed Lagged loses messages without a Reset).'
 META["explanation"] += ' R05.4 (snapshot and receiver taken in one `&self` call) and R08.2 (one Sender, never cloned into something that outlives the vector) are part of the shared im_core group.'
 META["explanation"] += " R06.7 every Poll::Pending the vector streams build is dominated by a poll of the receive future (Pending is the channel's answer; no Pending while diffs of a message are still in hand)."
+META["explanation"] += " R06.1 a snapshot that is attached only conditionally (Option, bool::then, a helper returning Option) is VIOLATED, not undecided. R06.3 is judged on the streams' poll_next with private helpers and map-closures spliced in. R06.4's exit clause is stated on the drain loop (the cycle through try_recv is left only over Empty / Closed edges). R06.8 a stream that keeps a buffer of diffs next to its receiver empties it on the path that produces a Reset."
 
 SHRINKING = r"bin:(Div|Sub|Shr|Rem)|::(min|saturating_sub|checked_sub|wrapping_sub|div_ceil|checked_div|isqrt|ilog2|ilog10)$"
 
@@ -41,6 +42,7 @@ def run(ctx):
     r06_5(ctx)
     r06_6(ctx)
     r06_7(ctx)
+    r06_8(ctx)
     from . import groups
     groups.im_core(ctx)
 
@@ -76,10 +78,15 @@ def r06_1(ctx):
             x = strip(e)
             ok = x[0] == "field" and x[2] == "values" and contains(x[1], lambda y: y[0] == "param" and y[1] == 1) and not mentions_field(x[1], "inner") \
                 and contains(e, lambda y: y[0] == "call" and ecall_matches(y, r"Clone>?::clone$"))
-            ctx.verdict(ok if ok else None, "R06.1", f, "state=contents", b.line_at(loc), "message.state = self.values.clone()")
+            cond = conditional_snapshot(F, f, b, e)
+            if cond and not ok:
+                ctx.violated("R06.1", f, "state=contents", b.line_at(loc),
+                             "the snapshot a message carries for lagging subscribers is attached only conditionally (`%s`): a subscriber that lags onto a message without it cannot be reset - the lag handler has nothing to return, which the streams treat as the end of the stream" % fmt(cond, 3))
+            else:
+                ctx.verdict(ok if ok else None, "R06.1", f, "state=contents", b.line_at(loc), "message.state = self.values.clone()")
     # (b) direct mutators: mutation dominates publication
     for f in c05.mutators(F, "vector::ObservableVector<"):
-        b = inl(F, f, *vec_pub)
+        b = inl(F, f, *vec_pub, desugar=True)
         muts = c05.values_mutations(b)
         pubs = [(blk, t) for blk, t in b.calls() if F.local_callee(f, t) in vec_pub]
         for pblk, pt in pubs:
@@ -89,6 +96,19 @@ def r06_1(ctx):
                         "`%s` publishes (and snapshots the state for a later Reset) before mutating the contents: a lagging subscriber is reset to a stale state" % f.path)
     n += commit_state(ctx)
     ctx.floor("R06.1", n, 12)
+
+
+def conditional_snapshot(F, f, b, e):
+    """the sub-expression that makes a message's state optional (None alternative, bool::then, a helper returning Option), or None."""
+    hit = find_all(e, lambda y: (y[0] == "call" and ecall_matches(y, r"bool.*::then(_some)?$|Option::<.*>::(filter|take|and_then|xor)$"))
+                   or (y[0] == "agg" and y[1] == "adt" and y[2] == "std::option::Option" and y[3] == "None"))
+    if hit:
+        return hit[0]
+    for y in find_all(e, lambda y: y[0] == "call" and isinstance(y[1], str)):
+        g = F.fns.get(f.crate + "::" + (y[2] or y[1])) or F.fns.get(f.crate + "::" + y[1])
+        if g is not None and g.raw.get("sig") and g.raw["sig"]["output"].startswith("std::option::Option<"):
+            return y
+    return None
 
 
 def commit_state(ctx):
@@ -167,48 +187,37 @@ def r06_2(ctx):
 
 
 def r06_3(ctx):
+    """a Reset is produced only as the answer to a lagging receive. Judged in the stream's poll_next with its private helpers and
+    the closures of `map` / `then` .. spliced in: every construction of VectorDiff::Reset there sits under a Lagged edge. Functions
+    of the subscriber module that are not spliced into a stream (crate-visible helpers) are judged in their own body."""
     F = ctx.facts
     n = 0
+    lagh = find_lag_handler(F)
+    streams = [g for g in F.find(crate=IM, name="poll_next") if "VectorSubscriber" in (g.raw.get("self_ty") or "") and g.raw.get("impl_trait") == "futures_core::Stream"]
+
+    def reset_sites(body):
+        return [loc for loc, s_ in body.iter_stmts() if s_["k"] == "assign" and s_["rv"]["k"] == "agg" and (s_["rv"].get("adt") or "").endswith("::VectorDiff") and s_["rv"]["variant"] == "Reset"]
+    for g in streams:
+        ib = inl(F, g, lagh, desugar=True, tag="r06.3") or g.built
+        for loc in reset_sites(ib):
+            n += 1
+            facts = conds.bare(conds.dominating_facts(ib, loc[0]))
+            lag = any(x[0] == "variant" and x[2] == frozenset(["Lagged"]) for x in facts)
+            ctx.verdict(lag, "R06.3", g, "reset-only-on-lag", ib.line_at(loc), "Reset is built under a Lagged edge of the receive",
+                        "a VectorDiff::Reset is produced on a path that is not a Lagged receive: a subscriber within capacity would be reset")
+    from ..inline import default_keep
     for f in F.find(crate=IM):
         b = f.built
         if not b or not (f.file or "").endswith("subscriber.rs"):
             continue
-        for loc, s in b.iter_stmts():
-            if not (s["k"] == "assign" and s["rv"]["k"] == "agg" and (s["rv"].get("adt") or "").endswith("::VectorDiff") and s["rv"]["variant"] == "Reset"):
-                continue
+        root = root_fn(F, f)
+        if root in streams or not default_keep(root):
+            continue   # spliced into the streams above (private helper / closure of one)
+        for loc in reset_sites(b):
             n += 1
-            # the site itself, or - for a closure body - the place where the closure is created
-            site_fn, site_blk = f, loc[0]
-            found = None
-            if f.kind == "closure":
-                parent = F.fns.get(f.crate + "::" + f.raw["parent"])
-                if parent and parent.built:
-                    for ploc, ps in parent.built.iter_stmts():
-                        if ps["k"] == "assign" and ps["rv"]["k"] == "agg" and ps["rv"].get("def") == f.path:
-                            found = (parent, ploc[0])
-            elif f.name != "poll_next":
-                # a named helper: the place where it is called or handed to a combinator as a function item
-                for g in F.find(crate=IM):
-                    gb = g.built
-                    if not gb or g is f:
-                        continue
-                    for blk, t in gb.calls():
-                        if F.local_callee(g, t) is f or any(a["k"] == "const" and a.get("fn") == f.path for a in t["args"]):
-                            found = (g, blk)
-            if found:
-                site_fn, site_blk = found
-            sb = site_fn.built
-            facts = conds.bare(conds.dominating_facts(sb, site_blk))
-            if not any(x[0] == "variant" and x[2] == frozenset(["Lagged"]) for x in facts) and site_fn.name != "poll_next":
-                # the site itself sits in a helper: look at where that helper is used from the stream
-                rootp = [g for g in F.find(crate=IM, name="poll_next") if "VectorSubscriber" in (g.raw.get("self_ty") or "")]
-                for g in rootp:
-                    ib = inl(F, g, find_lag_handler(F))
-                    for blk, t in ib.calls():
-                        if any(a["k"] == "const" and a.get("fn") == f.path for a in t["args"]) or F.local_callee(g, t) is f:
-                            facts = facts + conds.bare(conds.dominating_facts(ib, blk))
+            facts = conds.bare(conds.dominating_facts(b, loc[0]))
             lag = any(x[0] == "variant" and x[2] == frozenset(["Lagged"]) for x in facts)
-            ctx.verdict(lag, "R06.3", root_fn(F, f), "reset-only-on-lag", b.line_at(loc), "Reset is built under the Lagged edge (bb%d of %s)" % (site_blk, site_fn.name),
+            ctx.verdict(lag, "R06.3", root, "reset-only-on-lag", b.line_at(loc), "Reset is built under a Lagged edge",
                         "a VectorDiff::Reset is produced on a path that is not a Lagged receive: a subscriber within capacity would be reset")
     ctx.floor("R06.3", n, 2)
 
@@ -231,25 +240,35 @@ def r06_4(ctx, lag):
                 e = b.expr_of_rv(payload, 6, ())
                 if e[0] == "agg" and e[3] == "Some" and contains(e, lambda y: y[0] == "call" and y[4] == rloc):
                     acc = l
-    # follow `acc2 = move tmp`
-    if acc is not None:
+    # follow `acc2 = move tmp` (only from an unnamed temporary to the named local it initialises)
+    if acc is not None and not b.locals[acc]["name"]:
+        tmp = acc
         for l, ds in whole.items():
             for loc, kind, payload in ds:
-                if kind == "assign" and payload["k"] == "use" and payload["op"]["k"] == "move" and not payload["op"]["place"]["proj"] and payload["op"]["place"]["l"] == acc and b.locals[l]["name"]:
+                if kind == "assign" and payload["k"] == "use" and payload["op"]["k"] == "move" and not payload["op"]["place"]["proj"] and payload["op"]["place"]["l"] == tmp and b.locals[l]["name"] and acc == tmp:
                     acc = l
     if acc is None:
         ctx.undecided("R06.4", lag, "drain-to-newest", lag.loc(), "no local remembers the received message")
         return
-    # exits
+    # exits: the drain loop (the cycle through try_recv) is left only over the Empty / Closed edges of try_recv
     ok_exit = True
-    for loc, kind, payload in blocks_assigning_ret(b):
-        facts = conds.bare(conds.dominating_facts(b, loc[0]))
-        vs = [x[2] for x in facts if x[0] == "variant" and x[2] <= frozenset(["Empty", "Closed", "Lagged"])]
-        if not vs or not all(v <= frozenset(["Empty", "Closed"]) for v in vs):
-            ok_exit = False
-            ctx.violated("R06.4", lag, "loop-exits", b.line_at(loc), "the lag handler returns on a path that is not the Empty/Closed edge of try_recv: it stops before reaching the newest message, so the Reset is stale")
+    loop = {x for x in b.reachable_from(rblk) if rblk in b.reachable_from(x)} | {rblk}
+    n_exit = 0
+    for u in sorted(loop):
+        for v in b.normal_succ(u):
+            if v in loop or not any(b.term(x)["k"] == "return" for x in b.reachable_from(v)):
+                continue
+            n_exit += 1
+            facts = conds.bare(conds.dominating_facts(b, v)) if len([p_ for p_ in b.pred[v] if p_ in b.reachable()]) == 1 else conds.bare(conds.dominating_facts(b, u))
+            vs = [x[2] for x in facts if x[0] == "variant" and x[2] <= frozenset(["Empty", "Closed", "Lagged"])]
+            if not vs or not all(v_ <= frozenset(["Empty", "Closed"]) for v_ in vs):
+                ok_exit = False
+                ctx.violated("R06.4", lag, "loop-exits", b.line_at((v, 0)), "the lag handler leaves its drain loop on a path that is not the Empty/Closed edge of try_recv: it stops before reaching the newest message, so the Reset is stale")
+    if not n_exit:
+        ok_exit = False
+        ctx.undecided("R06.4", lag, "loop-exits", lag.loc(), "no exit of the drain loop found")
     if ok_exit:
-        ctx.holds("R06.4", lag, "loop-exits", lag.loc(), "all returns are under the Empty or Closed edge of try_recv")
+        ctx.holds("R06.4", lag, "loop-exits", lag.loc(), "the drain loop is left only under the Empty or Closed edge of try_recv")
     # every Ok overwrites the accumulator
     info = None
     sw = rt["target"]
@@ -393,3 +412,45 @@ def r06_7(ctx):
                         "`%s` returns Pending on a path that has not asked the channel: items it already holds (the rest of a transaction's message) stay undelivered while the consumer sees Pending, i.e. observes a state the vector never had" % f.path)
     if n == 0:
         ctx.holds("R06.7", None, "pending-is-the-channels-answer", None, "the vector streams build no Pending of their own: the only Pending is the receive future's result passed through")
+
+
+
+def r06_8(ctx):
+    """a Reset replaces everything: diffs the stream still holds from earlier messages (a buffer field next to the receiver) describe
+    states before the Reset and must be discarded on the path that produces it, else they are delivered after the Reset and applied to
+    the wrong base."""
+    F = ctx.facts
+    lag = find_lag_handler(F)
+    if lag is None:
+        return
+    n = 0
+    for f in F.find(crate=IM, name="poll_next"):
+        st = f.raw.get("self_ty") or ""
+        if f.raw.get("impl_trait") != "futures_core::Stream" or "VectorSubscriber" not in st:
+            continue
+        a = F.adt(IM, st.split("<")[0])
+        if not a:
+            continue
+        bufs = [fd["name"] for fd in a["variants"][0]["fields"] if re.search(r"(Vec|VecDeque|IntoIter|SmallVec|Vector)<.*VectorDiff<", fd["ty"])]
+        if not bufs:
+            ctx.holds("R06.8", f, "reset-discards-held-diffs", f.loc(), "`%s` keeps no buffer of diffs next to its receive state" % st.split("<")[0])
+            continue
+        b = inl(F, f, lag, desugar=True, tag="r06.8") or f.built
+        lag_blks = [blk for blk, t in b.calls() if F.local_callee(f, t) is lag]
+        for name in bufs:
+            clears = {loc[0] for loc, s_ in assigns_to_field(b, name)}
+            for blk, t in b.calls(r"::(clear|drain|truncate|split_off)$|^std::mem::(take|replace|swap)$"):
+                if t["args"] and mentions_field(b.expr_of_op(t["args"][0]), name):
+                    clears.add(blk)
+            for lb in lag_blks:
+                n += 1
+                guarded = any(x[0] in ("call_true", "call_false", "bool") and mentions_field(x[-1] if isinstance(x[-1], tuple) else ("const",), name) for x in conds.bare(conds.dominating_facts(b, lb)) if isinstance(x, tuple))
+                ok = b.post_dominated_by(lb, clears) or any(b.dominates(c, lb) for c in clears)
+                where = b.line_at((lb, 10 ** 6))
+                if ok:
+                    ctx.holds("R06.8", f, "reset-discards-held-diffs:%s" % name, where, "`%s` is emptied on the path that produces the Reset" % name)
+                elif guarded:
+                    ctx.undecided("R06.8", f, "reset-discards-held-diffs:%s" % name, where, "the lag path is guarded by a test of `%s`" % name)
+                else:
+                    ctx.violated("R06.8", f, "reset-discards-held-diffs:%s" % name, where,
+                                 "`%s` answers a lag with a Reset but keeps the diffs it still holds in `%s`: they are delivered after the Reset although they belong to states before it (stale Set / Remove indices, duplicated items)" % (f.path, name))
